@@ -781,7 +781,99 @@ pub proof fn lemma_rename_raw<N, E, Ix: IndexType>(ns1: Seq<Node<N, Ix>>, es1: S
     }
 }
 
-// L's own list after the rename
+// L's own list after the rename, in three steps (kept as separate queries: one big query was unstable)
+// (A) the part of the list before L now leads to slot e
+pub proof fn lemma_rename_own_prefix<N, E, Ix: IndexType>(ns1: Seq<Node<N, Ix>>, es1: Seq<Edge<E, Ix>>, es2: Seq<Edge<E, Ix>>, ns3: Seq<Node<N, Ix>>, es3: Seq<Edge<E, Ix>>,
+        k: int, ls1: Seq<Seq<int>>, ev: EdgeIndex<Ix>, lv: EdgeIndex<Ix>, q: int)
+    requires
+        0 <= k < 2, es1.len() >= 2, es1.len() <= end_ix::<Ix>(), 0 <= ev.0.ix() < es1.len() - 1, lv.0.ix() == es1.len() - 1,
+        lists_ok_except(ns1, es1, k, ls1, ev.0.ix() as int),
+        forall|j: int| 0 <= j < es1.len() ==> (#[trigger] es1[j]).node[k].0.ix() < ns1.len(),
+        es2.len() == es1.len() - 1, es2[ev.0.ix() as int] == es1[es1.len() - 1],
+        forall|j: int| 0 <= j < es2.len() && j != ev.0.ix() ==> es2[j] == es1[j],
+        0 <= q < ls1[es1[es1.len() - 1].node[k].0.ix() as int].len(),
+        ls1[es1[es1.len() - 1].node[k].0.ix() as int][q] == es1.len() - 1,
+        payload_same(ns1, es2, ns3, es3),
+        dir_done(ns1, es2, ns3, es3, es1[es1.len() - 1].node[k].0.ix() as int, lv, ev, k,
+                 ls1[es1[es1.len() - 1].node[k].0.ix() as int].subrange(0, q)),
+    ensures
+        ({
+            let e = ev.0.ix() as int; let l = es1.len() - 1; let al = es1[l].node[k].0.ix() as int; let s = ls1[al];
+            pre_then(es3, ns3[al].next[k], k, s.subrange(0, q), ev) && no_dup(s.subrange(0, q))
+        }),
+{
+    let e = ev.0.ix() as int;
+    let l = es1.len() - 1;
+    let al = es1[l].node[k].0.ix() as int;
+    let s = ls1[al];
+    let t = end_ix::<Ix>() as int;
+    let pre = s.subrange(0, q);
+    let suf = s.subrange(q + 1, s.len() as int);
+    let s3 = s.update(q, e);
+    lemma_rename_raw(ns1, es1, es2, ns3, es3, k, ls1, ev, lv, q);
+    lemma_slist_is_tchain(es1, ns1[al].next[k], k, s);
+    lemma_tchain_range(es1, ns1[al].next[k], k, s, t);
+    lemma_tchain_prefix(es1, ns1[al].next[k], k, s, t, q);
+    let mid = choose|mid: EdgeIndex<Ix>| mid.0.ix() == s[q] && pre_then(es1, ns1[al].next[k], k, pre, mid);
+    assert(no_dup(pre)) by { assert forall|i: int, j: int| 0 <= i < j < pre.len() implies pre[i] != pre[j] by { assert(pre[i] == s[i]); assert(pre[j] == s[j]); } }
+    if q == 0 {
+        assert(pre =~= Seq::<int>::empty());
+    } else {
+        assert forall|i: int| 0 <= i < pre.len() implies (#[trigger] pre[i]) < es3.len() && es2[pre[i]].next[k] == es1[pre[i]].next[k] by { assert(pre[i] == s[i]); }
+        lemma_pre_then_frame(es1, es2, ns1[al].next[k], k, pre, mid);
+        assert(pre[pre.len() - 1] == s[q - 1]);
+        assert forall|i: int| 0 <= i < pre.len() - 1 implies es3[#[trigger] pre[i]].next[k] == es2[pre[i]].next[k] by {
+            assert(pre[i] == s[i]); assert(s[i] != s[q - 1]);
+        }
+        lemma_pre_then_retarget(es2, es3, ns1[al].next[k], k, pre, mid, ev);
+    }
+}
+// (B) from slot e the old tail follows
+pub proof fn lemma_rename_own_tail<N, E, Ix: IndexType>(ns1: Seq<Node<N, Ix>>, es1: Seq<Edge<E, Ix>>, es2: Seq<Edge<E, Ix>>, ns3: Seq<Node<N, Ix>>, es3: Seq<Edge<E, Ix>>,
+        k: int, ls1: Seq<Seq<int>>, ev: EdgeIndex<Ix>, lv: EdgeIndex<Ix>, q: int)
+    requires
+        0 <= k < 2, es1.len() >= 2, es1.len() <= end_ix::<Ix>(), 0 <= ev.0.ix() < es1.len() - 1, lv.0.ix() == es1.len() - 1,
+        lists_ok_except(ns1, es1, k, ls1, ev.0.ix() as int),
+        forall|j: int| 0 <= j < es1.len() ==> (#[trigger] es1[j]).node[k].0.ix() < ns1.len(),
+        es2.len() == es1.len() - 1, es2[ev.0.ix() as int] == es1[es1.len() - 1],
+        forall|j: int| 0 <= j < es2.len() && j != ev.0.ix() ==> es2[j] == es1[j],
+        0 <= q < ls1[es1[es1.len() - 1].node[k].0.ix() as int].len(),
+        ls1[es1[es1.len() - 1].node[k].0.ix() as int][q] == es1.len() - 1,
+        payload_same(ns1, es2, ns3, es3),
+        dir_done(ns1, es2, ns3, es3, es1[es1.len() - 1].node[k].0.ix() as int, lv, ev, k,
+                 ls1[es1[es1.len() - 1].node[k].0.ix() as int].subrange(0, q)),
+    ensures
+        ({
+            let e = ev.0.ix() as int; let l = es1.len() - 1; let al = es1[l].node[k].0.ix() as int; let s = ls1[al];
+            tchain(es3, ev, k, seq![e] + s.subrange(q + 1, s.len() as int), end_ix::<Ix>() as int)
+        }),
+{
+    let e = ev.0.ix() as int;
+    let l = es1.len() - 1;
+    let al = es1[l].node[k].0.ix() as int;
+    let s = ls1[al];
+    let t = end_ix::<Ix>() as int;
+    let pre = s.subrange(0, q);
+    let suf = s.subrange(q + 1, s.len() as int);
+    let s3 = s.update(q, e);
+    lemma_rename_raw(ns1, es1, es2, ns3, es3, k, ls1, ev, lv, q);
+    lemma_slist_is_tchain(es1, ns1[al].next[k], k, s);
+    lemma_tchain_range(es1, ns1[al].next[k], k, s, t);
+    lemma_tchain_succ(es1, ns1[al].next[k], k, s, t, q);
+    assert(tchain(es3, es3[e].next[k], k, suf, t)) by {
+        if q > 0 { assert(s[q - 1] != e); }
+        assert(es3[e].next[k] == es2[e].next[k]);
+        assert forall|i: int| 0 <= i < suf.len() implies (#[trigger] suf[i]) < es3.len() && es3[suf[i]].next[k] == es1[suf[i]].next[k] by {
+            assert(suf[i] == s[q + 1 + i]);
+            if q > 0 { assert(s[q - 1] != s[q + 1 + i]); }
+        }
+        lemma_tchain_frame(es1, es3, es1[l].next[k], k, suf, t);
+    }
+    let tail = seq![e] + suf;
+    assert(tail.drop_first() =~= suf);
+    assert(tail[0] == e);
+}
+// (C) together
 pub proof fn lemma_rename_own<N, E, Ix: IndexType>(ns1: Seq<Node<N, Ix>>, es1: Seq<Edge<E, Ix>>, es2: Seq<Edge<E, Ix>>, ns3: Seq<Node<N, Ix>>, es3: Seq<Edge<E, Ix>>,
         k: int, ls1: Seq<Seq<int>>, ev: EdgeIndex<Ix>, lv: EdgeIndex<Ix>, q: int)
     requires
@@ -809,43 +901,13 @@ pub proof fn lemma_rename_own<N, E, Ix: IndexType>(ns1: Seq<Node<N, Ix>>, es1: S
     let pre = s.subrange(0, q);
     let suf = s.subrange(q + 1, s.len() as int);
     let s3 = s.update(q, e);
-    lemma_rename_raw(ns1, es1, es2, ns3, es3, k, ls1, ev, lv, q);
-    lemma_slist_is_tchain(es1, ns1[al].next[k], k, s);
-    lemma_tchain_range(es1, ns1[al].next[k], k, s, t);
-    lemma_tchain_prefix(es1, ns1[al].next[k], k, s, t, q);
-    let mid = choose|mid: EdgeIndex<Ix>| mid.0.ix() == s[q] && pre_then(es1, ns1[al].next[k], k, pre, mid);
-    assert(no_dup(pre)) by { assert forall|i: int, j: int| 0 <= i < j < pre.len() implies pre[i] != pre[j] by { assert(pre[i] == s[i]); assert(pre[j] == s[j]); } }
-    // (A) prefix now leads to e
-    assert(pre_then(es3, ns3[al].next[k], k, pre, ev)) by {
-        if q == 0 {
-            assert(pre =~= Seq::<int>::empty());
-        } else {
-            assert forall|i: int| 0 <= i < pre.len() implies (#[trigger] pre[i]) < es3.len() && es2[pre[i]].next[k] == es1[pre[i]].next[k] by { assert(pre[i] == s[i]); }
-            lemma_pre_then_frame(es1, es2, ns1[al].next[k], k, pre, mid);
-            assert(pre[pre.len() - 1] == s[q - 1]);
-            assert forall|i: int| 0 <= i < pre.len() - 1 implies es3[#[trigger] pre[i]].next[k] == es2[pre[i]].next[k] by {
-                assert(pre[i] == s[i]); assert(s[i] != s[q - 1]);
-            }
-            lemma_pre_then_retarget(es2, es3, ns1[al].next[k], k, pre, mid, ev);
-        }
-    }
-    // (B) from slot e the old tail follows
-    lemma_tchain_succ(es1, ns1[al].next[k], k, s, t, q);
-    assert(tchain(es3, es3[e].next[k], k, suf, t)) by {
-        if q > 0 { assert(s[q - 1] != e); }
-        assert(es3[e].next[k] == es2[e].next[k]);
-        assert forall|i: int| 0 <= i < suf.len() implies (#[trigger] suf[i]) < es3.len() && es3[suf[i]].next[k] == es1[suf[i]].next[k] by {
-            assert(suf[i] == s[q + 1 + i]);
-            if q > 0 { assert(s[q - 1] != s[q + 1 + i]); }
-        }
-        lemma_tchain_frame(es1, es3, es1[l].next[k], k, suf, t);
-    }
+    lemma_rename_own_prefix(ns1, es1, es2, ns3, es3, k, ls1, ev, lv, q);
+    lemma_rename_own_tail(ns1, es1, es2, ns3, es3, k, ls1, ev, lv, q);
     let tail = seq![e] + suf;
-    assert(tail.drop_first() =~= suf);
-    assert(tchain(es3, ev, k, tail, t));
     lemma_tchain_splice(es3, ns3[al].next[k], k, pre, ev, tail, t);
     assert(pre + tail =~= s3);
     lemma_tchain_is_slist(es3, ns3[al].next[k], k, s3);
+    lemma_slist_range(es1, ns1[al].next[k], k, s);
     assert forall|i: int, j: int| 0 <= i < j < s3.len() implies s3[i] != s3[j] by {
         if i == q { if s[j] == e { assert(s.contains(e)); } } else if j == q { if s[i] == e { assert(s.contains(e)); } }
     }
